@@ -741,11 +741,11 @@ fn get_field_decorators(
                 None
             }
         })
-        .filter_map(|list: MetaList| match list.path.get_ident() {
-            Some(ident) if languages.contains(&ident.try_into().unwrap()) => {
-                Some((ident.try_into().unwrap(), list))
-            }
-            _ => None,
+        .filter_map(|list: MetaList| {
+            // A nested list whose name is not a supported language (e.g. `foo(bar)`) is not
+            // a field decorator: skip it rather than unwrapping the failed conversion.
+            let language: SupportedLanguage = list.path.get_ident()?.try_into().ok()?;
+            languages.contains(&language).then_some((language, list))
         })
         .map(|(language, list): (SupportedLanguage, MetaList)| {
             (
